@@ -48,8 +48,9 @@ def main():
             outcome += '; thorough tier - ' + ', '.join(f'{k}: {v}' for k, v in sorted(th.items()))
         lines.append(f'| `{sid}` | {meta["property"]} | {meta["needs_to_manifest"]} | {outcome} |')
     refac = dict(load('REFACTORINGS.json'))
-    for k, v in load('REFACTORINGS2.json').items():   # re-run after the round-7 devices were added
-        refac.setdefault(k, {}).update(v)
+    for name in ('REFACTORINGS2.json', 'REFACTORINGS3.json'):   # re-runs after the round-7 / round-8 devices were added
+        for k, v in load(name).items():
+            refac.setdefault(k, {}).update(v)
     lines += ['', '## Behaviour-preserving refactorings (`refactorings/<id>/`, negative controls)', '',
               'Written by fresh sub-agents asked for a substantial restructuring with identical observable behaviour',
               '(each convinced itself with its own differential test against the pristine tree; pinned suite 301/301).',
@@ -65,7 +66,7 @@ def main():
         lines.append(f'| `{rid}` | {meta["refactor"]} | {meta["files"]} | {green} of {len(r)} green'
                      f'{(" - " + other + " **UNEXPECTED**") if other else ""} |')
     var = dict(load('VARIATIONS.json'))
-    for name in ('VARIATIONS2.json', 'VARIATIONS3.json', 'VARIATIONS4.json'):   # later files: re-runs with newer checks
+    for name in ('VARIATIONS2.json', 'VARIATIONS3.json', 'VARIATIONS4.json', 'VARIATIONS5.json', 'VARIATIONS6.json'):   # later files: re-runs with newer checks
         for k, v in load(name).items():
             var.setdefault(k, {}).update(v)
     lines += ['', '## Variations of behaviour the statements leave open (`variations/<id>/`, over-reach probes)', '',
